@@ -744,11 +744,15 @@ func TestC22(t *testing.T) {
 		}
 		run.Count("distinct_insertion_orders_compared", int64(maxPerms))
 		run.Count("cases_"+c.tasks[0].p.name, 1)
-		if run.WantSample() && c.n >= 3 && c.n <= 6 {
+		if run.WantSample() && c.n >= 2 && len(c.tasks[0].keys) > 0 {
 			rh := build(c.tasks[0].p, c.tasks[0].nodes)
 			k := c.tasks[0].keys[len(c.tasks[0].keys)/2]
-			run.Sample(map[string]interface{}{"case": c.id, "nodes": c.tasks[0].nodes, "key": k,
-				"ordered": labels(rh.GetOrderedNodes(k, c.n)), "keys_in_case": 4 * len(c.tasks[0].keys)})
+			ordered := labels(rh.GetOrderedNodes(k, c.n))
+			if len(ordered) > 8 {
+				ordered = ordered[:8] // the first 8 of the ordered list are enough to show the shape
+			}
+			run.Sample(map[string]interface{}{"case": c.id, "node_count": c.n, "key": k,
+				"ordered_first_8": ordered, "keys_in_case": 4 * len(c.tasks[0].keys)})
 		}
 	}
 }
